@@ -1,5 +1,6 @@
 import JominiModel.Proofs.TextTapeFaithful2
 import JominiModel.Proofs.TextTapeTotal
+import JominiModel.Proofs.TextTapeVar
 /-
 C01 growth, fragment 3: objects, arrays (of scalars, objects, arrays) and empty containers of any
 depth, under any valid layout.
@@ -113,6 +114,28 @@ theorem step_parseopen_ghost {n : Nat} {st : St} {b1 b2 Y : Bytes} (hst : st.sta
     step n st (b1 ++ 123 :: (b2 ++ 125 :: Y)) = .cont st Y := by
   simp only [step, skipWs_blank h1, skipWs_cons _ blank_open (by decide), stepAt, hst]
   simp [stepParseOpen, skipWs_blank h2, skipWs_cons Y blank_close (by decide)]
+
+/-- a scalar as a value (ObjectValue or ArrayValue). -/
+theorem step_valX {n : Nat} {st : St} {g : Bytes} {s : Scal} {X : Bytes}
+    (hst : st.state = .objectValue ∨ st.state = .arrayValue)
+    (hg : Blank g) (hs : s.ValidX) (hX : s.quoted = false → StartsBoundary X) :
+    step n st (g ++ (s.text ++ X)) =
+      .cont { st with tape := st.tape ++ [s.tok X], state := ret st.state } X := by
+  rcases hs with hv | hvar
+  · exact step_val hst hg hv hX
+  · have hs : s.ValidX := .inr hvar
+    have hc64 : ∃ r, s.text = 64 :: r := by
+      rcases hvar with ⟨hq, r, hb, _⟩ | ⟨hq, body, hb, _⟩
+      · exact ⟨r, by simp [Scal.text, hq, hb]⟩
+      · exact ⟨91 :: (body ++ [93]), by simp [Scal.text, hq, hb]⟩
+    obtain ⟨r, htx⟩ := hc64
+    have hlex := lexValue_scalX hs st.tape X hX
+    simp only [step, skipWs_blank hg, skipWs_scalX hs]
+    rw [htx] at hlex ⊢
+    simp only [List.cons_append] at hlex ⊢
+    rcases hst with hst | hst
+    · simp [stepAt, hst, stepObjectValue, hlex, ret]
+    · simp [stepAt, hst, stepArrayValue, hlex, ret]
 
 theorem closeState_append {T R : List Tok} {P : Nat} (h : P < T.length) :
     closeState (T ++ R)[P]? = closeState T[P]? := by
@@ -232,7 +255,7 @@ theorem head_jrenderV (v : JVal) (after Z : Bytes) (hv : JValidV v after) :
   | scal g s =>
     simp only [JValidV] at hv
     simp only [jrenderV, List.append_assoc]
-    exact head_blank_scal hv.1 hv.2.1 Z
+    exact head_blank_scalX hv.1 hv.2.1 Z
   | empty g gc =>
     simp only [JValidV] at hv
     simp only [jrenderV, List.append_assoc, List.cons_append]; exact hb _ hv.1
@@ -263,12 +286,12 @@ theorem container_open {v : JVal} {a : Bytes} (hc : v.isContainer) (hv : JValidV
 /-- …and what follows the `{` is not a `}`. -/
 theorem container_head {v : JVal} {a : Bytes} (hc : v.isContainer) (hv : JValidV v a) (W : Bytes) :
     ∃ g X, jrenderV v ++ W = g ++ 123 :: X ∧ Blank g ∧ ∃ c2 r2, skipWs X = some (c2 :: r2) ∧ c2 ≠ 125 := by
-  have hsc : ∀ {g0 : Bytes} {s : Scal} (Y : Bytes), Blank g0 → s.Valid →
+  have hsc : ∀ {g0 : Bytes} {s : Scal} (Y : Bytes), Blank g0 → s.ValidX →
       ∃ c2 r2, skipWs (g0 ++ (s.text ++ Y)) = some (c2 :: r2) ∧ c2 ≠ 125 := by
     intro g0 s Y h0 hs
     obtain ⟨c, r, htx, _, _, h125, _⟩ := hs.head
     refine ⟨c, r ++ Y, ?_, h125⟩
-    rw [skipWs_blank h0, skipWs_scal hs, htx]; rfl
+    rw [skipWs_blank h0, skipWs_scalX hs, htx]; rfl
   cases v with
   | scal g s => simp [JVal.isContainer] at hc
   | empty g gc => simp [JVal.isContainer] at hc
@@ -333,7 +356,7 @@ theorem skipWs_jrenderV_some {v : JVal} {a : Bytes} (hv : JValidV v a) (W : Byte
   cases v with
   | scal g s =>
     simp only [JValidV] at hv
-    exact ⟨_, by simp only [jrenderV, List.append_assoc]; rw [skipWs_blank hv.1, skipWs_scal hv.2.1]⟩
+    exact ⟨_, by simp only [jrenderV, List.append_assoc]; rw [skipWs_blank hv.1, skipWs_scalX hv.2.1]⟩
   | empty g gc => simp only [JValidV] at hv; simpa [jrenderV] using ho _ hv.1
   | obj g g0 k g1 o v rest gc => simp only [JValidV] at hv; simpa [jrenderV] using ho _ hv.1
   | arrS g g0 s0 rest gc => simp only [JValidV] at hv; simpa [jrenderV] using ho _ hv.1
@@ -390,7 +413,7 @@ theorem jrun_V (n : Nat) : ∀ (v : JVal) (after : Bytes) (fuel : Nat) (st : St)
   | .scal g s, after, fuel, st, hv, hst, _, _ => by
     simp only [JValidV] at hv
     simp only [jstepsV, jrenderV, jtapeV, List.append_assoc]
-    rw [run_cont (step_val hst hv.1 hv.2.1 hv.2.2)]
+    rw [run_cont (step_valX hst hv.1 hv.2.1 hv.2.2)]
   | .empty g gc, after, fuel, st, hv, hst, hc, hne => by
     simp only [JValidV] at hv
     have hfuel : fuel + jstepsV (.empty g gc) = (fuel + 1) + 1 := by simp only [jstepsV]
@@ -410,7 +433,7 @@ theorem jrun_V (n : Nat) : ∀ (v : JVal) (after : Bytes) (fuel : Nat) (st : St)
     rw [hfuel]
     simp only [jrenderV, List.append_assoc, List.cons_append, List.nil_append]
     rw [run_cont (step_open hst hg)]
-    rw [run_cont (step_parseopen_field (T := st.tape) rfl (by simpa using hc.mixed) rfl h0 hk h1 hkb)]
+    rw [run_cont (step_parseopen_fieldX (T := st.tape) rfl (by simpa using hc.mixed) rfl h0 hk h1 hkb)]
     have hop := step_kvs_op (n := n) (g := []) (o := o)
       (st := { state := .kvs, mixed := false, parent := st.tape.length,
                tape := st.tape ++ [.object st.parent false,
@@ -446,7 +469,7 @@ theorem jrun_V (n : Nat) : ∀ (v : JVal) (after : Bytes) (fuel : Nat) (st : St)
     rw [run_cont (step_open hst hg)]
     -- the first scalar decides: array
     obtain ⟨d2, hd2⟩ := skipWs_elems_some hvr hgc after
-    rw [run_cont (step_parseopen_scalar_arr (T := st.tape) rfl (by simpa using hc.mixed) rfl h0 hs0 hsb hd2
+    rw [run_cont (step_parseopen_scalar_arrX (T := st.tape) rfl (by simpa using hc.mixed) rfl h0 hs0 hsb hd2
       (hpk d2 hd2))]
     rw [← run_skip hd2]
     simp only [List.append_assoc, List.cons_append, List.nil_append]
@@ -529,7 +552,7 @@ theorem jrun_F (n : Nat) : ∀ (fs : JFields) (after : Bytes) (fuel : Nat) (st :
         simp at h; exact absurd h.2 this
       · exact .inr ⟨c, r ++ (jrenderV v ++ (jrenderF rest ++ after)), by
           rw [← List.cons_append, ← h]; simp, hc'⟩
-    rw [run_cont (step_key_scal hst h0 hk hkX)]
+    rw [run_cont (step_key_scalX hst h0 hk hkX)]
     rw [run_cont (step_kvs_op (by simp) (by simpa using hc.mixed) h1 (head_jrenderV v _ _ hvv))]
     simp only [List.append_assoc, List.cons_append, List.nil_append]
     rw [jrun_V n v (jrenderF rest ++ after) _ _ hvv (.inl rfl)
@@ -548,7 +571,7 @@ theorem jrun_F (n : Nat) : ∀ (fs : JFields) (after : Bytes) (fuel : Nat) (st :
       simp only [jstepsF]; omega
     rw [hfuel]
     simp only [jrenderF, List.append_assoc]
-    rw [run_cont (step_key_scal hst h0 hk hkb)]
+    rw [run_cont (step_key_scalX hst h0 hk hkb)]
     -- no operator: KeyValueSeparator hands the `{` to ObjectValue
     obtain ⟨gv, Xv, hrv, hgv⟩ := braced_open hbr hvv
     have hdata : jrenderV v ++ (jrenderF rest ++ after) = gv ++ 123 :: (Xv ++ (jrenderF rest ++ after)) := by
@@ -594,7 +617,7 @@ theorem jrun_F (n : Nat) : ∀ (fs : JFields) (after : Bytes) (fuel : Nat) (st :
         simp at he; exact absurd he.2 this
       · exact .inr ⟨c, r ++ (gh ++ (h.text ++ (jrenderV body ++ (jrenderF rest ++ after)))), by
           rw [← List.cons_append, ← he]; simp, hc'⟩
-    rw [run_cont (step_key_scal hst h0 hk hkX)]
+    rw [run_cont (step_key_scalX hst h0 hk hkX)]
     rw [run_cont (step_kvs_op (by simp) (by simpa using hc.mixed) h1 (head_blank_scal hgh hh _))]
     -- the header scalar is first read as an ordinary value
     rw [run_cont (step_val_scal (by simp) hgh hh (fun _ => hsb))]
@@ -856,8 +879,8 @@ theorem exampleTree_valid :
     JValidF exampleTree [10] ∧ Blank [10] ∧ hasBom (jrenderF exampleTree ++ [10]) = false := by
   have hb : ∀ c : UInt8, isBoundary c = true → ∀ r, StartsBoundary (c :: r) := fun c h r => .inr ⟨c, r, rfl, h⟩
   have sp : Blank [32] := .ws 32 [] (by decide +kernel) .nil
-  have u : ∀ c : UInt8, isBoundary c = false → isBlank c = false → c ≠ 34 → c ≠ 64 → (Scal.mk false [c]).Valid :=
-    fun c => unq_valid c
+  have u : ∀ c : UInt8, isBoundary c = false → isBlank c = false → c ≠ 34 → c ≠ 64 → (Scal.mk false [c]).ValidX :=
+    fun c a b d e => .inl (unq_valid c a b d e)
   refine ⟨?_, .ws 10 [] (by decide +kernel) .nil, by decide +kernel⟩
   simp only [exampleTree, JValidF, JValidV, JValidVs, jrenderF, jrenderV, jrenderVs, Op.text, Scal.text,
     JVal.isContainer, List.nil_append, List.append_nil, and_true, true_and]
@@ -897,7 +920,8 @@ theorem exampleHdr_valid :
     JValidF exampleHdr [10] ∧ Blank [10] ∧ hasBom (jrenderF exampleHdr ++ [10]) = false := by
   have hb : ∀ c : UInt8, isBoundary c = true → ∀ r, StartsBoundary (c :: r) := fun c h r => .inr ⟨c, r, rfl, h⟩
   have sp : Blank [32] := .ws 32 [] (by decide +kernel) .nil
-  have u := unq_valid
+  have u : ∀ c : UInt8, isBoundary c = false → isBlank c = false → c ≠ 34 → c ≠ 64 → (Scal.mk false [c]).ValidX :=
+    fun c a b d e => .inl (unq_valid c a b d e)
   refine ⟨?_, .ws 10 [] (by decide +kernel) .nil, by decide +kernel⟩
   simp only [exampleHdr, JValidF, JValidV, JValidVs, jrenderF, jrenderV, jrenderVs, jinner, Op.text, Scal.text,
     JVal.isContainer, JVal.isBraced, JVal.gap, List.nil_append, List.append_nil, and_true, true_and]
@@ -914,5 +938,29 @@ theorem exampleHdr_valid :
       u 120 (by decide +kernel) (by decide +kernel) (by decide) (by decide),
       fun _ => hb 125 (by decide +kernel) _,
       peek_concrete (d := [125, 10]) (by decide +kernel) (by decide +kernel)⟩
+
+/-- `@x = @[1 + x] y=@x` + newline: a variable as key and value, an interpolated expression. -/
+def exampleVar : JFields :=
+  .cons [] ⟨false, [64, 120]⟩ [32] .eq (.scal [32] ⟨false, [64, 91, 49, 32, 43, 32, 120, 93]⟩)
+    (.cons [32] ⟨false, [121]⟩ [] .eq (.scal [] ⟨false, [64, 120]⟩) .nil)
+
+example : parse (jrenderF exampleVar ++ [10]) = .ok (jtapeF exampleVar 0 [10]) false := by
+  decide +kernel
+
+theorem exampleVar_valid :
+    JValidF exampleVar [10] ∧ Blank [10] ∧ hasBom (jrenderF exampleVar ++ [10]) = false := by
+  have hb : ∀ c : UInt8, isBoundary c = true → ∀ r, StartsBoundary (c :: r) := fun c h r => .inr ⟨c, r, rfl, h⟩
+  have sp : Blank [32] := .ws 32 [] (by decide +kernel) .nil
+  have hvar : (Scal.mk false [64, 120]).ValidX :=
+    .inr (.inl ⟨rfl, [120], rfl, by simp, by decide +kernel⟩)
+  have hint : (Scal.mk false [64, 91, 49, 32, 43, 32, 120, 93]).ValidX :=
+    .inr (.inr ⟨rfl, [49, 32, 43, 32, 120], rfl, by decide⟩)
+  refine ⟨?_, .ws 10 [] (by decide +kernel) .nil, by decide +kernel⟩
+  simp only [exampleVar, JValidF, JValidV, jrenderF, jrenderV, Op.text, Scal.text,
+    List.nil_append, List.append_nil, and_true, true_and]
+  exact ⟨.nil, sp, hvar, fun _ => hb 32 (by decide +kernel) _,
+    ⟨sp, hint, fun _ => hb 32 (by decide +kernel) _⟩,
+    sp, .nil, .inl (unq_valid 121 (by decide +kernel) (by decide +kernel) (by decide) (by decide)),
+    fun _ => hb 61 (by decide +kernel) _, ⟨.nil, hvar, fun _ => hb 10 (by decide +kernel) _⟩⟩
 
 end Jomini.TextTape
